@@ -168,6 +168,30 @@ let run_case (line : string) : string =
       let env = { M.e_bound = true; e_params = binds; e_progs = progs; e_ufuncs = ufs;
                   e_runtime = true; e_now = Some M.Z0 } in
       print_res (M.exec (Lazy.force big_fuel) env entry) print_log
+  | "evalsrc" ->
+      let entry = bytes_of_hex (next t) in
+      expect t "S(";
+      let rec go acc err = match peek t with
+        | Some ")" -> ignore (next t); (List.rev acc, err)
+        | _ ->
+            let n = bytes_of_hex (next t) in
+            let src = decode_src (next t) in
+            if err <> None then go acc err else
+            (match M.compile_source (nat_of_int (List.length src + 20000)) src with
+             | M.COk (p, _) -> go ((n, p.M.pr_code) :: acc) None
+             | M.CSyntax l -> go acc (Some ("CERR " ^ hex_of_bytes n ^ " Esyn:" ^ loc_str l))
+             | M.CPanic -> go acc (Some "PANIC")
+             | M.CFuel -> go acc (Some "MODEL_FUEL")
+             | M.CUnmod -> go acc (Some "UNMOD")) in
+      let (progs, err) = go [] None in
+      let binds = parse_binds t in
+      let ufs = parse_ufuncs t in
+      (match err with
+       | Some e -> e
+       | None ->
+           let env = { M.e_bound = true; e_params = binds; e_progs = progs; e_ufuncs = ufs;
+                       e_runtime = true; e_now = Some M.Z0 } in
+           print_res (M.exec (Lazy.force big_fuel) env entry) print_log)
   | "func" ->
       (* func <name> <this> L( args ) *)
       let name = bytes_of_hex (next t) in
